@@ -195,16 +195,37 @@ inline DecResult Decode(const char *data, size_t size, const std::vector<draco::
   db.Init(data, size);
   draco::Decoder dec;
   for (auto t : skip) dec.SetSkipAttributeTransform(t);
-  auto type = draco::Decoder::GetEncodedGeometryType(&db);
-  if (!type.ok()) { d.status = type.status(); return d; }
-  if (type.value() == draco::TRIANGULAR_MESH) {
-    auto r = dec.DecodeMeshFromBuffer(&db);
-    d.status = r.status();
-    if (r.ok()) { std::unique_ptr<draco::Mesh> m = std::move(r).value(); d.mesh = m.get(); d.pc = std::move(m); }
+  // The public decoding entry points are interchangeable; which one is used is a deterministic function of the
+  // stream: (0) type query + Decode*FromBuffer, (1) Decode*FromBuffer without a preceding type query (type taken from
+  // the header byte), (2) DecodeBufferToGeometry into a caller-provided object.
+  int mode = size >= 11 ? static_cast<int>((size + static_cast<uint8_t>(data[size / 2]) + static_cast<uint8_t>(data[size - 1])) % 3) : 0;
+  draco::EncodedGeometryType gt = draco::INVALID_GEOMETRY_TYPE;
+  if (mode != 0) { const uint8_t tb = static_cast<uint8_t>(data[7]); if (tb == 0) gt = draco::POINT_CLOUD; else if (tb == 1) gt = draco::TRIANGULAR_MESH; else mode = 0; }
+  if (mode == 0) {
+    auto type = draco::Decoder::GetEncodedGeometryType(&db);
+    if (!type.ok()) { d.status = type.status(); return d; }
+    gt = type.value();
+  }
+  if (gt == draco::TRIANGULAR_MESH) {
+    if (mode == 2) {
+      std::unique_ptr<draco::Mesh> m(new draco::Mesh());
+      d.status = dec.DecodeBufferToGeometry(&db, m.get());
+      if (d.status.ok()) { d.mesh = m.get(); d.pc = std::move(m); }
+    } else {
+      auto r = dec.DecodeMeshFromBuffer(&db);
+      d.status = r.status();
+      if (r.ok()) { std::unique_ptr<draco::Mesh> m = std::move(r).value(); d.mesh = m.get(); d.pc = std::move(m); }
+    }
   } else {
-    auto r = dec.DecodePointCloudFromBuffer(&db);
-    d.status = r.status();
-    if (r.ok()) d.pc = std::move(r).value();
+    if (mode == 2) {
+      std::unique_ptr<draco::PointCloud> p(new draco::PointCloud());
+      d.status = dec.DecodeBufferToGeometry(&db, p.get());
+      if (d.status.ok()) d.pc = std::move(p);
+    } else {
+      auto r = dec.DecodePointCloudFromBuffer(&db);
+      d.status = r.status();
+      if (r.ok()) d.pc = std::move(r).value();
+    }
   }
   d.remaining = db.remaining_size();
   return d;
